@@ -131,17 +131,17 @@ func genC11(r *rt.Rand, tier string, idx int) *world.Scenario {
 }
 
 type c11Iter struct {
-	it      storage.Iter
-	snap    []string          // model keys of the interval in direction order, at creation
-	vals    map[string]string // model snapshot values
-	pos     int               // how many elements have been yielded
-	limit   int
-	cur     string
-	valid   bool
-	done    bool
-	desc    string
-	atEOF   bool
-	curVal  string
+	it     storage.Iter
+	snap   []string          // model keys of the interval in direction order, at creation
+	vals   map[string]string // model snapshot values
+	pos    int               // how many elements have been yielded
+	limit  int
+	cur    string
+	valid  bool
+	done   bool
+	desc   string
+	atEOF  bool
+	curVal string
 }
 
 func c11Custom(t *testing.T, sc *world.Scenario, out *Outcome) {
@@ -227,7 +227,10 @@ func c11Custom(t *testing.T, sc *world.Scenario, out *Outcome) {
 						delete(model, op.Key)
 					}
 				case "batch":
-					type bop struct{ kind, k, v, old string; h int }
+					type bop struct {
+						kind, k, v, old string
+						h               int
+					}
 					var bops []bop
 					for _, p := range strings.Split(op.Val, ";") {
 						kv := strings.SplitN(p, ":", 2)
